@@ -122,11 +122,61 @@ def rule_chansplit(ctx):
                 "subtracted when its LF-group size is computed (%s)" % (sorted(cmp_k), sorted(sub_k)), fn=g)
 
 
+def rule_rle_scope(ctx):
+    """the run state of the RLE-mode (libjxl fast-lossless) decoder lives exactly as long as the RLE decoder it belongs to"""
+    rid = "R-RLE-SCOPE"
+    ctx.rule(rid, "a run of the RLE entropy mode may continue from one channel into the next, so the state that carries it (RleState) must "
+                  "have the scope of the RLE decoder (DecoderRleMode): every RleState is constructed in the function that obtains the "
+                  "DecoderRleMode, and not inside a loop that the decoder's creation is outside of.  A per-channel state drops the rest of "
+                  "a run at every channel boundary")
+    md = ctx.prog.crate("jxl_modular")
+    adt = next((k for k in md.adts if k.endswith("::RleState")), None)
+    if adt is None:
+        ctx.anchor_missing(rid, "jxl_modular::..::RleState")
+        return
+    sites = []
+    for f in md.fn_list:
+        if f.kind == "Promoted":
+            continue
+        own = f.path.startswith(adt + "::") or ("<" + adt) in f.path
+        for b, t in f.calls():
+            c = callee(t)
+            if c and c["fn"].split("::<")[0] == adt and c["fn"].endswith("::new") and not own:
+                sites.append((f, b, t[-2]))
+        if not own:
+            for b, blk in enumerate(f.blocks):
+                if blk[2]:
+                    continue
+                for st in blk[0]:
+                    if st[0] == "=" and st[2][0] == "agg" and st[2][1][0] == "adt" and st[2][1][1] == adt:
+                        sites.append((f, b, st[3]))
+    if not sites:
+        ctx.anchor_missing(rid, "a construction of RleState outside its own impl")
+        return
+    for f, b, pos in sites:
+        ctx.seen(f)
+        created = [cb for cb, t in f.calls() if t[3] and len(t[3]) == 1 and "jxl_coding::DecoderRleMode" in f.local_ty(t[3][0]) and not f.local_ty(t[3][0]).startswith("&")]
+        key = "rle-state:%s" % f.path
+        if not created:
+            ctx.bad(rid, key + "|not-decoder-scope", "%s constructs an RleState but does not obtain the RLE decoder itself (it is handed one): the "
+                    "run state is reset whenever this function is called again for the same stream, so a run that continues into the next "
+                    "channel is lost" % f.path, fn=f, pos=pos)
+            continue
+        in_loop = any(b in f.reachable(x) for x in f.succs(b))
+        loop = (f.reachable(b) & {x for x in range(len(f.blocks)) if b in f.reachable(x)}) | {b} if in_loop else set()
+        if in_loop and not any(cb in loop for cb in created):
+            ctx.bad(rid, key + "|per-iteration", "%s constructs the RleState inside a loop that the RLE decoder's creation is outside of: the run "
+                    "state is reset on every iteration" % f.path, fn=f, pos=pos)
+        else:
+            ctx.ok(rid, key, "constructed once next to the DecoderRleMode it belongs to", nontrivial=True, fn=f)
+
+
 def main(pid, tier, repo=None):
     ctx = Ctx(pid, tier, configs=("workspace",), repo=repo)
     specconst.run(ctx, pid, floor=2)
     enummap.run(ctx, pid)
     rule_chansplit(ctx)
+    rule_rle_scope(ctx)
     ctx.not_decided("that every decoded sample equals the encoded integer: predictors (incl. the self-correcting one), context-tree lookup, "
                     "the specialised fast paths agreeing with the general path, RLE/LZ77 state across channels, inverse RCT / palette / "
                     "squeeze arithmetic, group layout")
